@@ -109,4 +109,3 @@ package route
 //@   abstract
 //@   noinline
 //@   assert before HandlerFunc!: false
-
